@@ -619,6 +619,27 @@ def f_divmod_table_lookup():
     return t[17], q, r, [divmod(x, 8) for x in (7, 8, 9)]
 
 
+class _Rec(NamedTuple):
+    h: bytes
+    d: int = 0
+
+    @property
+    def d_bytes(self):
+        return self.d.to_bytes(2, 'big')
+
+    def bump(self, k):
+        return self._replace(d=self.d + k)
+
+    @classmethod
+    def zero(cls):
+        return cls(b'', 0)
+
+
+def f_namedtuple_members():
+    r = _Rec(b'ab', 5)
+    return r.d_bytes, tuple(r.bump(2)), r.bump(2).d_bytes, tuple(_Rec.zero()), r[0], r.h, tuple(r), [x.d for x in (r, r.bump(1))], r == _Rec(b'ab', 5), len(r)
+
+
 def f_keyword_arguments():
     import itertools as _it
     l = [3, 1, 2]
